@@ -653,6 +653,10 @@ example := C01_batch_lens_ties (2 : Int) 2 [[7, 5], [2, 9], [2, 9]] (by simp [Wi
     · exact ⟨by decide, by decide⟩)
 -- C01_oracle_prefix applied
 example := (C01_oracle_prefix ⟨1/2, 1, 3/2⟩ [(7 : Int), 7, 2] [7, 2]).2 1 (by decide)
+-- (audit F) the three remaining theorems with a hypothesis that had no instance of their own
+example := C01_cut_eos (2 : Int) true [7, 7] [9, 2] (by decide)
+example := C01_cut_no_eos (2 : Int) true [7, 7, 5, 9] (by decide)
+example := C01_lens_ties_nonvacuous (2 : Int) [7, 7, 5, 9] (by decide)
 
 /-! ## The module layer (third improvement round): `EditDistance` / `PrefixEditDistances` as objects
 
@@ -835,6 +839,16 @@ example := C01_module_assign_all (SMModule.newPED (α := Int)) (SMModule.newPED 
 example := (C01_module_fresh (SMModule.newED (α := Int)) (SMModule.newED (some 2) false false true (1/2) 1 (3/2) true)
   audAssigns [] audRef audHyp 0 (by decide +kernel) (by decide +kernel) (by decide +kernel) (by decide +kernel)
   (by decide +kernel) (by decide +kernel) (by decide +kernel)).1
+-- (audit F) the `PrefixEditDistances` conjunct of C01_module_fresh with ALL nine hypotheses: a re-tuned object
+-- (defaults, then costs / eos / layout / padding / include_eos reassigned) against one constructed with those
+-- values (and another `warn`); the last-written values differ from the construction-time ones in 7 attributes
+example := (C01_module_fresh (SMModule.newPED (α := Int))
+  (SMModule.newPED (some 2) false false true (1/2) 1 (3/2) (-1) false true)
+  (audAssigns ++ [.padding (-1), .includeEos false]) [] audRef audHyp 0 (by decide +kernel) (by decide +kernel)
+  (by decide +kernel) (by decide +kernel) (by decide +kernel) (by decide +kernel) (by decide +kernel)).2
+  (by decide +kernel) (by decide +kernel)
+example : (SMModule.newPED (α := Int)).assignAll (audAssigns ++ [.padding (-1), .includeEos false])
+    ≠ SMModule.newPED (some 2) false false true (1/2) 1 (3/2) (-1) false true := by decide +kernel
 example := C01_module_pair (SMModule.newED (α := Int)) audAssigns audRef audHyp 0 audRef_wf audHyp_wf 2
   (by decide +kernel) (by decide +kernel) (by decide +kernel)
 example := C01_module_norm (SMModule.newED (α := Int)) (audAssigns ++ [.norm true]) audRef audHyp 0 audRef_wf audHyp_wf 2
